@@ -18,7 +18,7 @@ SPLIT = "data_preparation.split_joint_labels"
 def r1(ctx):
     ana = ctx.ana
     fi = ana.func(PAD)
-    b = ana.builder(fi, no_inline=lambda f: True)
+    b = ana.builder(fi, no_inline=ana.known)
     rt = b.return_term()
     labels, W = Sym(fi.params[0]), Sym(fi.params[1])
     Wm1 = tm.add(W, -1)
@@ -41,7 +41,7 @@ def r1(ctx):
 def r2(ctx):
     ana = ctx.ana
     st = ana.func("data_preparation.stack_training_data")
-    b = ana.builder(st, no_inline=lambda f: True)
+    b = ana.builder(st, no_inline=ana.known)
     cfg = ana.cfg(st)
     data, W = Sym(st.params[0]), Sym(st.params[1])
     rows = tm.add(tm.add(Idx(Attr(data, "shape"), (tm.ZERO,)), tm.neg(W)), 1)
@@ -60,7 +60,7 @@ def r2(ctx):
             ok = ok or shp.elems[0] == rows
     ctx.check(ok, st, "the stacker produces T - W + 1 rows", role="stacker-rows", expected=str(rows), found=found)
     fe = ana.func("front_end.ticc_joint_labels")
-    bf = ana.builder(fe, no_inline=lambda f: True)
+    bf = ana.builder(fe, no_inline=ana.known)
     split = calls_to(ana, fe, "fast_ticc.front_end._split_combined_result")
     if not split:
         raise AnalysisError("ticc_joint_labels does not call _split_combined_result")
@@ -84,7 +84,7 @@ def r2(ctx):
 def r3(ctx):
     ana = ctx.ana
     fi = ana.func(SPLIT)
-    b = ana.builder(fi, no_inline=lambda f: True)
+    b = ana.builder(fi, no_inline=ana.known)
     rt = b.return_term()
     joint, L = Sym(fi.params[0]), Sym(fi.params[1])
     E = App("builtins.list", (App("itertools.accumulate", (L,)),))
@@ -111,7 +111,7 @@ def r3(ctx):
 def r4(ctx):
     ana = ctx.ana
     fi = ana.func("front_end._split_combined_result")
-    b = ana.builder(fi, no_inline=lambda f: True)
+    b = ana.builder(fi, no_inline=ana.known)
     master, sizes = Sym(fi.params[0]), Sym(fi.params[1])
     ctor = calls_to(ana, fi, "fast_ticc.containers.results.MultipleDataSeriesResult")
     if len(ctor) != 1:
@@ -130,7 +130,7 @@ def r4(ctx):
               "the assembled result is returned", role="assembly:return", found=str(b.return_term())[:60])
     # joint front end passes the master result and the stacked sizes
     fe = ana.func("front_end.ticc_joint_labels")
-    bf = ana.builder(fe, no_inline=lambda f: True)
+    bf = ana.builder(fe, no_inline=ana.known)
     rt = bf.return_term()
     ok = isinstance(rt, App) and rt.fn == fi.qualname and len(rt.args) >= 2 and isinstance(rt.args[0], App) \
         and rt.args[0].fn == "fast_ticc.main_loop.fit_stacked_data"
@@ -138,7 +138,7 @@ def r4(ctx):
               expected="_split_combined_result(fit_stacked_data(...), sizes, series)", found=str(rt)[:120])
     # single-series front end
     se = ana.func("front_end.ticc_labels")
-    bs = ana.builder(se, no_inline=lambda f: True)
+    bs = ana.builder(se, no_inline=ana.known)
     stores = [s for s in bs.stores() if s.attr == "point_labels"]
     res = App("fast_ticc.main_loop.fit_stacked_data", (), {})
     ok = len(stores) == 1
@@ -156,7 +156,7 @@ def r4(ctx):
 def r5(ctx):
     ana = ctx.ana
     fi = ana.func("main_loop.fit_stacked_data")
-    b = ana.builder(fi, no_inline=lambda f: True)
+    b = ana.builder(fi, no_inline=ana.known)
     data = Sym(fi.params[1])
     ctor = calls_to(ana, fi, "fast_ticc.containers.results.SingleDataSeriesResult")
     if len(ctor) != 1:
@@ -175,7 +175,7 @@ def r5(ctx):
         if len(defs) == 1 and len(stores) == 1 and len(stores[0].loops) == 1:
             alloc = b.term(defs[0].ast.value, defs[0])
             s = stores[0]
-            rng = b.loop_range(s.loops[0])
+            rng = s.loop_ranges[0]
             i = Sym(s.loops[0].target.id)
             state_labels = [x for x in tm.subterms(s.value) if isinstance(x, Attr) and x.name == "point_labels"]
             ok = tm.length(alloc) == rows and rng == Range(0, rows) and s.idx == (i,) and isinstance(s.value, Idx) \
